@@ -55,6 +55,10 @@ type Group struct {
 	Extra []string
 	// Nop: functions of the code under test given empty bodies (logging)
 	Nop []string
+	// Root is the module root the package lives in (default: the repository)
+	Root string
+	// Gen: generated files (name -> content) injected next to the harness files
+	Gen map[string]string
 }
 
 type Spec struct {
@@ -66,6 +70,8 @@ type Spec struct {
 	// CustomReplay confirms a violation natively when the generic
 	// same-harness replay is not possible; returns (reproduced, note).
 	CustomReplay func(c *Ctx, v gose.Violation, dir string) (bool, string)
+	// Prepare runs first and may fill in Groups (generated harnesses).
+	Prepare func(c *Ctx) error
 	// Post runs additional property-specific work (native/SMT-only parts).
 	Post func(c *Ctx) error
 	// FindingKey maps a violation to the key looked up in known_findings.txt
@@ -364,9 +370,19 @@ func replayTest(pkg string, fns []string) string {
 }
 
 // overlayFor builds the go/packages overlay (symbolic run) for a group.
+func (g *Group) root() string {
+	if g.Root != "" {
+		return g.Root
+	}
+	return RepoDir
+}
+
 func (g *Group) overlay(id string) (map[string][]byte, error) {
 	ov := map[string][]byte{}
-	dir := filepath.Join(RepoDir, g.PkgDir)
+	dir := filepath.Join(g.root(), g.PkgDir)
+	for name, content := range g.Gen {
+		ov[filepath.Join(dir, name)] = []byte(content)
+	}
 	for _, f := range g.Files {
 		src, err := os.ReadFile(filepath.Join(VerifDir, "harness", id, f))
 		if err != nil {
@@ -384,8 +400,13 @@ func (g *Group) nativeBinary(id string) (string, error) {
 	wd := workDir(id)
 	tag := strings.ReplaceAll(g.PkgDir, "/", "_")
 	bin := filepath.Join(wd, "native_"+tag+".test")
-	dir := filepath.Join(RepoDir, g.PkgDir)
+	dir := filepath.Join(g.root(), g.PkgDir)
 	repl := map[string]string{}
+	for name, content := range g.Gen {
+		f := filepath.Join(wd, tag+"_"+name)
+		os.WriteFile(f, []byte(content), 0o644)
+		repl[filepath.Join(dir, name)] = f
+	}
 	for _, f := range g.Files {
 		repl[filepath.Join(dir, "zz_verif_"+filepath.Base(f))] = filepath.Join(VerifDir, "harness", id, f)
 	}
@@ -503,6 +524,12 @@ func Run(spec *Spec, tier string, seed int64) int {
 	c := &Ctx{Spec: spec, Tier: tier, Seed: seed, Start: time.Now(), Extra: map[string]any{}}
 	known := loadKnown()
 	replayRoot := filepath.Join(VerifDir, "replays", spec.ID)
+	if spec.Prepare != nil {
+		if err := spec.Prepare(c); err != nil {
+			c.Fail("prepare: %v", err)
+			return c.Finish()
+		}
+	}
 
 	for gi := range spec.Groups {
 		g := &spec.Groups[gi]
@@ -527,7 +554,7 @@ func Run(spec *Spec, tier string, seed int64) int {
 			continue
 		}
 		pats := append([]string{g.PkgPath}, g.Extra...)
-		prog, err := gose.Load(RepoDir, ov, pats...)
+		prog, err := gose.Load(g.root(), ov, pats...)
 		if err != nil {
 			c.Fail("load %s: %v", g.PkgPath, err)
 			continue
